@@ -4,7 +4,7 @@ import json, random
 import collide
 from core import hx, World
 
-NAMES = ['TestZ/v01', 'TestZ/v1', 'TestN/case_9', 'TestN/case_10', 'TestN/case_100', 'TestI/index[0]', 'TestA', 'TestAB', 'TestX/[a]', 'TestV2', 'TestA/case_2', 'TestR/ratio/1.25', 'TestA/x', 'TestA/x/y', 'TestA/x#01', 'TestB', 'TestB/sub_case', 'Test1', 'Test01',
+NAMES = ['TestZ/v01', 'TestZ/v1', 'TestN/case_9', 'TestN/case_10', 'TestN/case_100', 'TestN/case_19', 'TestN/case_12', 'TestN/case_2', 'TestI/index[0]', 'TestA', 'TestAB', 'TestX/[a]', 'TestV2', 'TestA/case_2', 'TestR/ratio/1.25', 'TestA/x', 'TestA/x/y', 'TestA/x#01', 'TestB', 'TestB/sub_case', 'Test1', 'Test01',
          'Test10', 'TestZ/a/b/c', 'TestLong/with_some-chars.and:colon', 'TestÜnicode/ß', 'TestA/x_-_1', 'Test_x']
 # punctuation, spaces and non-ASCII in (sub)test names: everything a table-driven test named after a route, a
 # path, a key or a sentence produces.  File systems other than the one the tests run on reserve some of
@@ -17,7 +17,7 @@ PUNCT_NAMES = ['TestQ/GET_/users?page=2', 'TestQ/GET_/users_page=2', 'TestW/C:\\
                'TestBr/{x}', 'TestPa/(x)', 'TestD/$HOME', 'TestBt/`cmd`', 'TestEx/wow!', 'TestCa/a^b', 'TestJp/\u65e5\u672c\u8a9e', 'TestNb/a\u00a0b',
                'TestCo/e\u0301', 'TestCo/\u00e9']
 FAMILIES = [['TestA', 'TestAB', 'TestA/x', 'TestA/x/y', 'TestA/x#01', 'TestA/case_2', 'TestA/x_-_1'], ['TestB', 'TestB/sub_case'],
-            ['Test1', 'Test10', 'Test01'], ['TestN/case_9', 'TestN/case_10', 'TestN/case_100'], ['TestZ/v1', 'TestZ/v01', 'TestZ/a/b/c']]
+            ['Test1', 'Test10', 'Test01'], ['TestN/case_9', 'TestN/case_10', 'TestN/case_100', 'TestN/case_19', 'TestN/case_12', 'TestN/case_2'], ['TestZ/v1', 'TestZ/v01', 'TestZ/a/b/c']]
 PCT_NAMES = ['TestP/100%_done', 'TestQ/%d', 'TestR/50%s']
 UNRECOGNISED = ['FuzzX/seed#0', 'BenchmarkY', 'ExampleZ']
 
